@@ -16,6 +16,8 @@ func init() {
 }
 
 func runC02(r *engine.Run) {
+	r.Rule("REF-poolput", "see C16: no object is touched after it went back to a sync.Pool (every node key and root is a RawHash: a pooled hash state that another goroutine took before the digest was read yields keys that are not the hash of the node)")
+	r.Rule("DOM-merge", "see C03: in mergeChanges no error return is reachable after the parent's root was installed (a merge that fails after moving the root leaves a root that commits to content the store does not hold, and the retry reports success at the same-root shortcut)")
 	r.Rule("RET-pair", "every success return of a recursive insert/delete helper of the state trie (results Node, Key, error) hands back a pair that belongs together: both results of one helper call, (nil, nil), or a node with its own GetHashBytes() - the caller rebuilds itself by the kind of the returned node and links the returned key, so a node from one source and a key from another give the parent a non-canonical form")
 	r.Rule("AGREE-hash", "the GetHashBytes of LeafNode, FullNode and ExtensionNode share one skeleton: binary.Write(buf, LittleEndian, receiver.GetOrigin()), then the type's own private encode(buf), then RawHash(buf.Bytes()); each type's Encode writes the node prefix and then calls the same encode function object: hash input = origin || exactly the persisted fields")
 	r.Rule("ORDER-stamp", "in insertNode SetOrigin(trie version) precedes GetHashBytes() of the same node, whose result is the key passed to PutNode for that node, with no mutator call on the node in between")
@@ -51,6 +53,8 @@ func runC02(r *engine.Run) {
 	cloneComplete(r, "CLONE-complete")
 	errGuard(r, "ERR-guard", "ERR-dropped", mptFuncs(r), 15)
 	retPairMPT(r, "RET-pair")
+	refPoolPut(r, "REF-poolput")
+	rootMovedLast(r, "DOM-merge")
 }
 
 var trieNodeTypes = []string{"LeafNode", "FullNode", "ExtensionNode"}
